@@ -31,6 +31,7 @@ type variant struct {
 	Resplit                                     int  `json:",omitempty"` // re-divide all lines among this many files
 	Stdin                                       bool `json:",omitempty"` // feed the concatenated input on standard input
 	StdinPauseMs                                int  `json:",omitempty"` // pause in the middle of standard input (forces the 250 ms time flush)
+	StdinBursts                                 int  `json:",omitempty"` // with StdinPauseMs: number of bursts the input is cut into (default 2); every pause lets the 100 ms refresh render mid-stream
 }
 type c03In struct {
 	Cmd      string        `json:"cmd"`
@@ -130,8 +131,11 @@ func runVariant(in c03In, v variant, dir string) runObs {
 			paths[i], paths[j] = paths[j], paths[i]
 		}
 	}
-	args := []string{in.Cmd, "-m", in.Regex, "-e", extractString(in.Extract), "--csv", "-",
-		"--workers", fmt.Sprint(v.Workers), "--batch", fmt.Sprint(v.Batch), "--batch-buffer", fmt.Sprint(v.Buffer), "--readers", fmt.Sprint(v.Readers)}
+	args := []string{in.Cmd, "-m", in.Regex, "-e", extractString(in.Extract)}
+	if in.Cmd != "analyze" { // analyze has no CSV export: its snapshot text is compared instead
+		args = append(args, "--csv", "-")
+	}
+	args = append(args, "--workers", fmt.Sprint(v.Workers), "--batch", fmt.Sprint(v.Batch), "--batch-buffer", fmt.Sprint(v.Buffer), "--readers", fmt.Sprint(v.Readers))
 	if anyGz {
 		args = append(args, "-z")
 	}
@@ -145,11 +149,29 @@ func runVariant(in c03In, v variant, dir string) runObs {
 		if err != nil {
 			return runObs{Code: -1, Note: err.Error()}
 		}
-		cut := bytes.LastIndexByte(all[:len(all)/2+1], '\n') + 1
+		nb := v.StdinBursts
+		if nb < 2 {
+			nb = 2
+		}
+		var cuts []int
+		for k := 1; k < nb; k++ {
+			end := len(all)*k/nb + 1
+			if end > len(all) {
+				end = len(all)
+			}
+			c := bytes.LastIndexByte(all[:end], '\n') + 1
+			if len(cuts) == 0 || c > cuts[len(cuts)-1] {
+				cuts = append(cuts, c)
+			}
+		}
 		feed = func() {
-			pw.Write(all[:cut])
-			time.Sleep(time.Duration(v.StdinPauseMs) * time.Millisecond)
-			pw.Write(all[cut:])
+			prev := 0
+			for _, c := range cuts {
+				pw.Write(all[prev:c])
+				time.Sleep(time.Duration(v.StdinPauseMs) * time.Millisecond)
+				prev = c
+			}
+			pw.Write(all[prev:])
 			pw.Close()
 		}
 	} else if v.Stdin {
@@ -171,7 +193,16 @@ func runVariant(in c03In, v variant, dir string) runObs {
 		} else if err != nil {
 			return runObs{Code: -1, Note: err.Error()}
 		}
-		return runObs{Code: code, Stdout: hex.EncodeToString(stdout.Bytes())}
+		ob := stdout.Bytes()
+		if in.Cmd == "analyze" {
+			// the last line is the reader status (bytes read and a data RATE, file counters): timing
+			// dependent by design and not part of the result; everything above it is compared
+			t := bytes.TrimRight(ob, "\n")
+			if i := bytes.LastIndexByte(t, '\n'); i >= 0 {
+				ob = t[:i+1]
+			}
+		}
+		return runObs{Code: code, Stdout: hex.EncodeToString(ob)}
 	case <-time.After(60 * time.Second):
 		cmd.Process.Kill()
 		return runObs{Code: -2, Note: "did not terminate within 60s"}
@@ -186,6 +217,8 @@ func kindOf(cmd string) int {
 		return 1
 	case "bargraph":
 		return 2
+	case "reduce":
+		return 4
 	}
 	return 3
 }
@@ -230,6 +263,9 @@ func mkCase(in c03In, idx int) Case {
 		if v.StdinPauseMs > 0 {
 			tags = append(tags, "stdin-pause(time-flush)")
 		}
+		if v.StdinBursts > 2 {
+			tags = append(tags, "stdin-bursts(mid-stream-refresh)")
+		}
 		if v.Resplit > 0 {
 			tags = append(tags, "resplit")
 		}
@@ -272,11 +308,17 @@ func genIn(r *Rng) c03In {
 		}
 	case "analyze":
 		in.Extract = []pipe.KPiece{{Kind: "group", Idx: 3}}
+		in.Args = Pick(r, [][]string{nil, {"-x"}, {"-x", "--reverse"}, {"--reverse"}, {"-x", "--reverse", "-q", "25", "-q", "99.5"}})
 	case "reduce":
-		in.Extract = []pipe.KPiece{{Kind: "group", Idx: 1}}
-		in.Args = []string{"-a", "total={sumi {.} {3}}", "-g", "{1}"}
+		// the key handed to the accumulator is the NUL-joined triple, so {1} {2} {3} in the group and
+		// accumulator expressions are the three fields; two group expressions (the first may be empty)
+		in.Extract = []pipe.KPiece{{Kind: "group", Idx: 1}, {Kind: "lit", Text: "\x00"}, {Kind: "group", Idx: 2}, {Kind: "lit", Text: "\x00"}, {Kind: "group", Idx: 3}}
+		in.Args = []string{"-g", "{1}", "-g", "{2}", "-a", "total={sumi {.} {3}}", "-a", "n={sumi {.} 1}"}
 	}
 	nf := 1 + r.Intn(4)
+	if (cmd == "analyze" || cmd == "reduce") && r.Bool() {
+		nf = 1
+	}
 	incs := []string{"1", "2", "-3", "0", "7", "x", "+5", "40", "1", "2", "5",
 		"9223372036854775807", "9223372036854775808", "-9223372036854775808", "-9223372036854775809", "9999999999999999999", "1234567890123456789"}
 	// staged corpora: the first part uses a few early-sorting sub-keys and one set of keys, the second part
@@ -292,7 +334,11 @@ func genIn(r *Rng) c03In {
 		}
 		for l := 0; l < nl; l++ {
 			line := Pick(r, keyAlpha) + "|" + Pick(r, keyAlpha[:6]) + "|" + Pick(r, incs)
-			if staged {
+			if cmd == "reduce" {
+				// empty first / second group values now and then; increments a signed decimal or not a number
+				line = Pick(r, []string{"", "", "a", "b", "key,with,commas", "say \"hi\"", "é"}) + "|" + Pick(r, []string{"", "x", "y", " lead", "10"}) + "|" + Pick(r, incs[:11])
+			}
+			if staged && cmd != "reduce" {
 				if i == 0 && l < nl/2 {
 					line = Pick(r, keyAlpha[:6]) + "|" + Pick(r, subs[:3]) + "|" + Pick(r, incs[:11])
 				} else {
@@ -307,7 +353,7 @@ func genIn(r *Rng) c03In {
 				b = append(b, '\n')
 			}
 		}
-		in.Files = append(in.Files, c03File{Name: fmt.Sprintf("log%d.txt", i), Content: hex.EncodeToString(b), Gzip: r.Chance(1, 5)})
+		in.Files = append(in.Files, c03File{Name: fmt.Sprintf("log%d.txt", i), Content: hex.EncodeToString(b), Gzip: r.Chance(1, 5) && !(nf == 1 && (cmd == "analyze" || cmd == "reduce"))})
 	}
 	// make sure every file but the last ends with a newline so that re-splitting preserves the lines
 	for i := range in.Files {
@@ -335,6 +381,12 @@ func genIn(r *Rng) c03In {
 		case 4:
 			if len(in.Files) == 1 && !in.Files[0].Gzip {
 				v.Stdin = true
+			}
+		case 1:
+			// order-sensitive commands: the same bytes on standard input in bursts, so that the 100 ms
+			// refresh computes intermediate results between batches (the final result must not depend on it)
+			if !orderFree && len(in.Files) == 1 && !in.Files[0].Gzip && r.Chance(1, 2) {
+				v.Stdin, v.StdinPauseMs, v.StdinBursts = true, 160, 3
 			}
 		}
 		in.Variants = append(in.Variants, v)
@@ -370,11 +422,35 @@ func timedIn() c03In {
 	return in
 }
 
+// order-sensitive commands with intermediate refreshes: the same bytes from a file and on standard input in
+// three and in five bursts (every pause lets the 100 ms refresh compute an intermediate result); the final
+// result must be the same
+func burstIn(cmd string, r *Rng) c03In {
+	var b []byte
+	vals := []int{5, 1, 9, 3, 7, 2, 8, 4, 6, 10, 1, 9, 5, 5, 3}
+	for i := 0; i < 30; i++ {
+		b = append(b, []byte(fmt.Sprintf("%s|%s|%d\n", Pick(r, []string{"", "a", "b"}), Pick(r, []string{"x", "y"}), vals[i%len(vals)]+r.Intn(3)))...)
+	}
+	in := c03In{Cmd: cmd, Regex: `^([^|]*)\|([^|]*)\|([^|]*)$`, Files: []c03File{{Name: "in.txt", Content: hex.EncodeToString(b)}}}
+	if cmd == "analyze" {
+		in.Extract = []pipe.KPiece{{Kind: "group", Idx: 3}}
+		in.Args = []string{"-x", "--reverse", "-q", "10", "-q", "50", "-q", "90"}
+	} else {
+		in.Extract = []pipe.KPiece{{Kind: "group", Idx: 1}, {Kind: "lit", Text: "\x00"}, {Kind: "group", Idx: 2}, {Kind: "lit", Text: "\x00"}, {Kind: "group", Idx: 3}}
+		in.Args = []string{"-g", "{1}", "-g", "{2}", "-a", "total={sumi {.} {3}}", "-a", "n={sumi {.} 1}"}
+	}
+	in.Variants = []variant{{Workers: 1, Batch: 1000, Buffer: 1, Readers: 1, Gomaxprocs: 1},
+		{Workers: 1, Batch: 1000, Buffer: 1, Readers: 1, Gomaxprocs: 4, Stdin: true, StdinPauseMs: 160, StdinBursts: 3},
+		{Workers: 1, Batch: 2, Buffer: 1, Readers: 1, Gomaxprocs: 2, Stdin: true, StdinPauseMs: 130, StdinBursts: 5},
+		{Workers: 1, Batch: 1, Buffer: 4, Readers: 1, Gomaxprocs: 16}}
+	return in
+}
+
 func main() {
 	Main(&Prop{
 		Name:   "C03",
 		Header: pipe.Header + "From RareV Require Import Corr.C03Case.\nDefinition mm := C03Case.mm.\n",
-		Rule: "the `rare` binary built from the working tree: histo, tabulate, heatmap, spark, bargraph (CSV read back by the strict RFC 4180 reader in Coq and compared with the C07 models over the sequential reference keys; exit status against exit_code) and analyze, reduce (determinism and exit status only) on generated corpora of 1-4 files (plain/gzip, 0-1800 lines, keys with commas, quotes, leading space, tab, non-ASCII; increments incl. negative, zero, non-numeric) under 6 tuning variants each: workers 1/2/8, batch 1/3/1000, batch-buffer 1/4, readers 1/3, GOMAXPROCS 1/4/16, file order reversed, the same lines re-divided among 1-4 files, standard input. " +
+		Rule: "the `rare` binary built from the working tree: histo, tabulate, heatmap, spark, bargraph (CSV read back by the strict RFC 4180 reader in Coq and compared with the C07 models over the sequential reference keys; exit status against exit_code) reduce (two group expressions, the first sometimes empty, sum and count accumulators: CSV rows compared as a set with the C07 AccumulatingGroup model) and analyze (plain, -x, --reverse, extra quantiles: the snapshot text without its timing-dependent status line must be the same under every variant and start with the sample count; exit status) on generated corpora of 1-4 files (plain/gzip, 0-1800 lines, keys with commas, quotes, leading space, tab, non-ASCII; increments incl. negative, zero, non-numeric) under 6 tuning variants each: workers 1/2/8, batch 1/3/1000, batch-buffer 1/4, readers 1/3, GOMAXPROCS 1/4/16, file order reversed, the same lines re-divided among 1-4 files, standard input, and for the order-sensitive commands standard input in 3-5 bursts so that the 100 ms refresh computes intermediate results. " +
 			"distinct = distinct (command, corpus, variants); non-trivial = more than 3 lines and at least 4 variants.",
 		Gen: func(r *Rng, n int, tier string) []Case {
 			ins := make([]c03In, n)
@@ -383,6 +459,9 @@ func main() {
 			}
 			if n > 2 {
 				ins[0], ins[1] = alignedIn(), timedIn()
+			}
+			if n > 4 {
+				ins[2], ins[3] = burstIn("analyze", r), burstIn("reduce", r)
 			}
 			out := make([]Case, n)
 			var wg sync.WaitGroup
